@@ -481,3 +481,63 @@ func use(a *alpha.TA, o *omega.TO) {
 }
 `}}}}}
 }
+
+// ExcludedDep: an annotated dependency whose directory is excluded by the default configuration
+// (path contains "testdata"). Its annotations must be inert in every driver alike — in particular
+// under go vet, where each package is analysed by a separate process started in the package's
+// own directory — while the regular dependency next to it keeps working.
+func ExcludedDep() *prog.Program {
+	dep := func(path, name string) prog.Pkg {
+		return prog.Pkg{Path: path, Files: []prog.File{{Name: "m.go", Src: `package ` + name + `
+
+// M is immutable.
+// @immutable
+// @constructor New
+type M struct {
+	F int
+}
+
+func New() *M { return &M{} }
+
+// Probe is test-only and restricted.
+// @testonly
+// @packageonly nowhere
+func Probe() int { return 0 }
+`}}}
+	}
+	return &prog.Program{Pkgs: []prog.Pkg{dep("ex.com/m/gen/testdata/model", "model"), dep("ex.com/m/lib", "lib"),
+		{Path: "ex.com/m/mid", Files: []prog.File{{Name: "mid.go", Src: `package mid
+
+import (
+	"ex.com/m/gen/testdata/model"
+	"ex.com/m/lib"
+)
+
+func Touch(a *model.M, b *lib.M) {
+	a.F = 1
+	_ = model.M{}
+	model.Probe()
+	b.F = 1 // want IMM01
+	_ = lib.M{} // want CTOR01
+	lib.Probe() // want TONL02,PKGO02
+}
+`}}},
+		{Path: "ex.com/m/app", Files: []prog.File{{Name: "app.go", Src: `package app
+
+import (
+	"ex.com/m/gen/testdata/model"
+	"ex.com/m/lib"
+	"ex.com/m/mid"
+)
+
+func use(a *model.M, b *lib.M) {
+	mid.Touch(a, b)
+	a.F++
+	var z model.M
+	_ = z
+	b.F++ // want IMM03
+	var w lib.M // want CTOR03
+	_ = w
+}
+`}}}}}
+}
